@@ -58,6 +58,8 @@ with np.errstate(all="ignore"):
             check("%s: [0,1]^%g in [0,1]" % (name, ex), np.all((rs >= 0) & (rs <= 1)), None)
         ee = samples(dt, -2.0, 0.0, N)
         check(name + ": 10^e >= 0.0099 on [-2,0)", np.all(np.power(dt(10), ee[ee < 0]) >= 0.0099), None)
+        ee3 = samples(dt, -3.0, 0.0, N)
+        check(name + ": 10^e >= 0.00099 on [-3,0)", np.all(np.power(dt(10), ee3[ee3 < 0]) >= 0.00099), None)
         ee = samples(dt, 0.0, 1.0, N)
         check(name + ": 10^e <= 10.001 on (0,1]", np.all(np.power(dt(10), ee[ee > 0]) <= 10.001), None)
     # powi (f64, integer exponent): same facts on [0,1]
